@@ -23,8 +23,8 @@ from .report import Check, analysis_error
 # check reports it.)
 DEPENDS = {
     'C08': ['C02', 'C03', 'C04', 'C07', 'C19F'],
-    'C09': ['C02', 'C04', 'C19F'],
-    'C10': ['C02', 'C04', 'C19F'],
+    'C09': ['C02', 'C03', 'C04', 'C19F'],
+    'C10': ['C02', 'C03', 'C04', 'C19F'],
     'C06': ['C05'],
     'C11': ['C04', 'C03', 'C19F'],        # C05 is evaluated inside sa.rules.c11 itself (R2)
     'C12': ['C15'],
